@@ -267,6 +267,20 @@ func (p *solverPool) solveObl(c *FnCtx, parsed []logLine, o *Obl) OblResult {
 	if len(splits) > 0 && first > 0.4 {
 		first = 0.4
 	}
+	// goals that do not speak about slice contents are tried first without the quantified facts
+	if !o.Smoke && !strings.Contains(o.Goal, "select") && !strings.Contains(o.Goal, "forall") {
+		q0 := c.buildQueryQ(parsed, o, nil, false, false)
+		if !strings.Contains(q0, "(forall ") {
+			// nothing was dropped: fall through to the normal path
+		} else {
+			r0 := p.solveP(q0, first, false)
+			res.TimeS += r0.secs
+			res.Queries++
+			if r0.status == "unsat" {
+				return finish(r0, "")
+			}
+		}
+	}
 	r := try(nil, first, false)
 	if r.status == "sat" && !o.Smoke {
 		// confirm with the full context (the cone-of-influence slice only drops facts)
